@@ -16,9 +16,27 @@ from ..paths import summaries
 from ..tmpl import T, tfind, tmatch
 
 
+def _where(ctx, m, name):
+    """(module, value) of a function / constant of the result module, followed through a re-import when it was moved to a sibling module"""
+    if name in m.functions:
+        return m, m.functions[name]
+    if name in m.assigns:
+        return m, m.assigns[name]
+    dotted = m.imports.get(name)
+    if dotted:
+        mn, _, nm = dotted.rpartition(".")
+        m2 = ctx.program.modules.get(mn)
+        if m2 is not None:
+            if nm in m2.functions:
+                return m2, m2.functions[nm]
+            if nm in m2.assigns:
+                return m2, m2.assigns[nm]
+    return m, None
+
+
 def r1_alphabet(ctx, m) -> None:
     """path summaries of _cast_primitive_bit: guard-clause, if/else and negated spellings coincide"""
-    fn = m.functions.get("_cast_primitive_bit")
+    m, fn = _where(ctx, m, "_cast_primitive_bit")
     if fn is None:
         ctx.broken("anchor vanished: _cast_primitive_bit")
     p = fn.args.args[0].arg
@@ -102,7 +120,7 @@ def r2_replay_order(ctx, m, shot) -> ast.For | None:
 
 
 def r3_grammar(ctx, m) -> None:
-    pat = m.assigns.get("REG_INDEX_PATTERN")
+    m, pat = _where(ctx, m, "REG_INDEX_PATTERN")
     if not (isinstance(pat, ast.Call) and u(pat.func) == "re.compile" and isinstance(pat.args[0], ast.Constant)):
         ctx.broken("anchor vanished: REG_INDEX_PATTERN = re.compile(<literal>)")
     src = pat.args[0].value
